@@ -1,6 +1,7 @@
 import LlirModel.Meta
 import LlirProofs.Core3Lemmas
 import LlirProofs.Props.C11
+import LlirProofs.MdNameLemmas
 /-! M-Meta: the field / line readers invert the printers. -/
 namespace Llir.Meta
 open Llir Llir.Types Llir.Core2 Llir.Core3 Llir.TyParse
@@ -236,66 +237,6 @@ theorem idsString_len : ∀ (ns : List Nat), ns.length ≤ (idsString ns).length
   | [] => by simp
   | [n] => by simp [idsString, mdID]
   | n :: m :: rest => by have := idsString_len (m :: rest); simp [idsString, mdID, sSep] at *; omega
-
-/-! ### metadata names -/
-
-theorem hex_mdNameChar : ∀ b : UInt8, isMdNameChar (Enc.hexDigit (b >>> 4)) = true ∧ isMdNameChar (Enc.hexDigit (b &&& 15)) = true := by
-  apply forall_byte; decide +kernel
-
-theorem inTail_mdNameChar (c : UInt8) (h : Enc.inTail c = true) : isMdNameChar c = true := by
-  simp only [Enc.inTail, Enc.inHead, Bool.or_eq_true] at h
-  simp only [isMdNameChar, Enc.isLetter, Bool.or_eq_true]
-  rcases h with h | h
-  · left; left; simpa using h
-  · left; right; exact h
-
-theorem escape_mdNameChars : ∀ (s : Bytes), ∀ c ∈ Enc.escape Enc.inTail s, isMdNameChar c = true
-  | [] => by simp [Enc.escape]
-  | b :: bs => by
-    intro c hc
-    unfold Enc.escape at hc
-    by_cases hb : Enc.inTail b = true
-    · simp only [hb, if_true, List.mem_cons] at hc
-      rcases hc with hc | hc
-      · subst hc; exact inTail_mdNameChar _ hb
-      · exact escape_mdNameChars bs c hc
-    · simp only [hb, Bool.false_eq_true, if_false, List.mem_cons] at hc
-      rcases hc with hc | hc | hc | hc
-      · subst hc; decide
-      · subst hc; exact (hex_mdNameChar b).1
-      · subst hc; exact (hex_mdNameChar b).2
-      · exact escape_mdNameChars bs c hc
-
-theorem digit_hex : ∀ b : UInt8, isDigit b = true → Enc.hexDigit (b >>> 4) = 51 ∧ Enc.hexDigit (b &&& 15) = b := by
-  apply forall_byte; decide +kernel
-
-/-- the printed name: `!` + a body of name characters that does not start with a digit and decodes to the name -/
-theorem mdName_shape (name : Bytes) (hne : name ≠ []) :
-    ∃ body, mdName name = 33 :: body ∧ body ≠ [] ∧ (body.head?.map isDigit).getD false = false ∧
-      (∀ c ∈ body, isMdNameChar c = true) ∧ Enc.unescape body = name := by
-  cases name with
-  | nil => exact absurd rfl hne
-  | cons b rest =>
-    by_cases hd : isDigit b = true
-    · refine ⟨92 :: 51 :: b :: Enc.escape Enc.inTail rest, by simp [mdName, Enc.metadataName, hd], by simp, by simp [isDigit], ?_, ?_⟩
-      · intro c hc
-        simp only [List.mem_cons] at hc
-        rcases hc with hc | hc | hc | hc
-        · subst hc; decide
-        · subst hc; decide
-        · subst hc; simp [isMdNameChar, hd]
-        · exact escape_mdNameChars rest c hc
-      · have := Enc.unescape_esc b (Enc.escape Enc.inTail rest)
-        rw [(digit_hex b hd).1, (digit_hex b hd).2] at this
-        rw [this, Enc.unescape_escape Enc.inTail (by decide) rest]
-    · have hd' : isDigit b = false := by simpa using hd
-      refine ⟨Enc.escape Enc.inTail (b :: rest), by simp [mdName, Enc.metadataName, hd'], ?_, ?_, escape_mdNameChars (b :: rest),
-        Enc.unescape_escape Enc.inTail (by decide) (b :: rest)⟩
-      · unfold Enc.escape; split <;> simp
-      · unfold Enc.escape
-        split
-        · simp [hd']
-        · simp [isDigit]
 
 /-! ### lines -/
 
